@@ -885,7 +885,7 @@ pub mod fastq {
                 && final(self).buf_pos.pos.0 == old(self).buf_pos.pos.0
                 && old(self).b().len() <= final(self).b().len() && final(self).b().subrange(0, old(self).b().len() as int) == old(self).b(),
             [C09|fastq.resume.capacity_monotone] final(self).buf_reader.cap() >= old(self).buf_reader.cap(),
-            [C09|fastq.resume.growth_only_when_record_does_not_fit] make_room && final(self).buf_reader.cap() > old(self).buf_reader.cap() ==>
+            [C03,C09|fastq.resume.growth_only_when_record_does_not_fit] make_room && final(self).buf_reader.cap() > old(self).buf_reader.cap() ==>
                 c4(final(self).f(), final(self).gpos()) - final(self).gpos() >= old(self).buf_reader.cap(),
 //@body_start
         proof { lemma_count_lf_mono(self.f(), 0, self.position.byte as int); }
@@ -957,7 +957,7 @@ pub mod fastq {
                 && (old(self).state == State::Finished || old(self).poisoned() || !old(self).clean() || end_ok(old(self).f(), old(self).cursor())),
             [C02,C04,C20|fastq.next.end_is_sticky] old(self).state == State::Finished ==> r is None,
             [C09|fastq.next.capacity_monotone] final(self).buf_reader.cap() >= old(self).buf_reader.cap(),
-            [C09|fastq.next.growth_only_when_record_does_not_fit] old(self).clean() && !old(self).poisoned() && final(self).buf_reader.cap() > old(self).buf_reader.cap() ==>
+            [C03,C09|fastq.next.growth_only_when_record_does_not_fit] old(self).clean() && !old(self).poisoned() && final(self).buf_reader.cap() > old(self).buf_reader.cap() ==>
                 nofit(old(self).f(), old(self).cursor(), old(self).buf_reader.cap() as int),
             [C14|fastq.next.source_errors_are_not_swallowed] (r is None || r matches Some(Ok(_))) ==> final(self).buf_reader.errs() == old(self).buf_reader.errs(),
             [C02,C03,C04,C06,C12|fastq.next.record] r matches Some(Ok(rec)) ==> final(self).buf_reader.errs() == old(self).buf_reader.errs()
@@ -1021,9 +1021,9 @@ pub mod fastq {
             to.line == true_line(old(self).f(), to.byte as int),
         ensures
             [C02,C03,C04,C05,C06|fastq.seek.frame] final(self).f() == old(self).f() && final(self).buf_policy == old(self).buf_policy,
-            [C04,C05,C06|fastq.seek.positioned] r is Ok ==> final(self).wf() && final(self).state == State::Positioned && final(self).incomplete_pos is None
-                && final(self).position == *to && final(self).gpos() == to.byte && final(self).cursor() == to.byte
-                && final(self).buf_reader.errs() == old(self).buf_reader.errs(),
+            [C03,C04,C05,C06|fastq.seek.positioned] r is Ok ==> final(self).wf() && final(self).state == State::Positioned && final(self).incomplete_pos is None
+                && final(self).position == *to && final(self).gpos() == to.byte && final(self).cursor() == to.byte,
+            [C03,C04,C05,C06,C14|fastq.seek.ok_no_error_raised] r is Ok ==> final(self).buf_reader.errs() == old(self).buf_reader.errs(),
             [C09|fastq.seek.capacity] final(self).buf_reader.cap() == old(self).buf_reader.cap(),
             [C02,C03,C14,C17|fastq.seek.err] r matches Err(e) ==> (e matches Error::Io(x) && final(self).buf_reader.errs() == old(self).buf_reader.errs().push(x)),
 //@end
@@ -1391,7 +1391,7 @@ trait RecordD {
                 && final(self).position.line == true_line(old(self).f(), final(self).position.byte as int),
             [C14|fastq.read_set.source_errors_are_not_swallowed] (r is None || r matches Some(Ok(_))) ==> final(self).buf_reader.errs() == old(self).buf_reader.errs(),
             [C09|fastq.read_set.capacity_monotone] final(self).buf_reader.cap() >= old(self).buf_reader.cap(),
-            [C09|fastq.read_set.plain_sets_grow_only_when_a_record_does_not_fit] n_records is None && old(self).clean() && !old(self).poisoned()
+            [C03,C09|fastq.read_set.plain_sets_grow_only_when_a_record_does_not_fit] n_records is None && old(self).clean() && !old(self).poisoned()
                 && final(self).buf_reader.cap() > old(self).buf_reader.cap() ==>
                 exists|j: int| 0 <= j && #[trigger] nofit(old(self).f(), gstart(old(self).f(), old(self).cursor(), j), old(self).buf_reader.cap() as int),
             [C03,C04,C06|fastq.read_set.none] r is None ==> final(self).buf_reader.errs() == old(self).buf_reader.errs() && final(self).state == State::Finished
